@@ -28,15 +28,26 @@ __CPROVER_ensures(g_send_calls == __CPROVER_old(g_send_calls) + 1 && g_send_ret 
 __CPROVER_ensures(HIT(__CPROVER_return_value) ==> (g_os_has && g_os_byte == data[(g_pos - OLD_LEN) & ((usize)0 - (usize)(g_pos - OLD_LEN < size))]))
 __CPROVER_ensures(!HIT(__CPROVER_return_value) ==> (g_os_has == __CPROVER_old(g_os_has) && g_os_byte == __CPROVER_old(g_os_byte)))
 ;
+extern int g_last_error;
 int c_Socket_getLastError(void)
-__CPROVER_requires(1) /* any value: errno after a failed send is the OS's choice */
-__CPROVER_assigns()
+__CPROVER_requires(1) /* any value: errno after a failed call is the OS's choice (recorded for the read unit) */
+__CPROVER_assigns(g_last_error)
+__CPROVER_ensures(g_last_error == __CPROVER_return_value)
+;
+
+extern long g_recv_ret; extern int g_recv_calls;
+/* Socket::recv(data, maxSize, minSize): -1, 0 (closed) or 1..maxSize bytes written to data */
+ssize c_Socket_recv(struct Socket* self, byte* data, usize maxSize, usize minSize)
+__CPROVER_requires(maxSize == 0 || __CPROVER_w_ok(data, maxSize))
+__CPROVER_assigns(maxSize != 0: __CPROVER_object_upto(data, maxSize); g_recv_ret, g_recv_calls)
+__CPROVER_ensures(__CPROVER_return_value >= -1 && (__CPROVER_return_value <= 0 || (usize)__CPROVER_return_value <= maxSize))
+__CPROVER_ensures(g_recv_ret == __CPROVER_return_value && g_recv_calls == __CPROVER_old(g_recv_calls) + 1)
 ;
 
 _Bool post_write(_Bool ret);
 _Bool post_write_ready(void);
 _Bool post_suspend_resume(_Bool target);
-#define GHOSTS g_os_len, g_os_has, g_os_byte, g_send_calls, g_send_ret, g_poll_sets, g_poll_removes, g_poll_flags, g_poll_sock, g_closing, g_onWrite, g_onClosed, g_onRead
+#define GHOSTS g_last_error, g_os_len, g_os_has, g_os_byte, g_send_calls, g_send_ret, g_poll_sets, g_poll_removes, g_poll_flags, g_poll_sock, g_closing, g_onWrite, g_onClosed, g_onRead
 
 _Bool w_client_write(void* c, const byte* data, usize size, usize* postponed)
 __CPROVER_requires(size <= NV_MAXSZ && (size == 0 || __CPROVER_r_ok(data, size)) && __CPROVER_w_ok(postponed, sizeof(usize)))
@@ -48,6 +59,12 @@ void w_write_ready(void* p, void* c)
 __CPROVER_ensures(post_write_ready())
 __CPROVER_assigns(__CPROVER_object_whole(c); gv_buf != 0: __CPROVER_object_whole(gv_buf); GHOSTS)
 __CPROVER_frees(gv_buf)
+;
+_Bool post_read(_Bool ret);
+_Bool w_client_read(void* c, byte* buffer, usize maxSize, usize* size)
+__CPROVER_requires(maxSize <= NV_MAXSZ && (maxSize == 0 || __CPROVER_w_ok(buffer, maxSize)) && __CPROVER_w_ok(size, sizeof(usize)))
+__CPROVER_ensures(post_read(__CPROVER_return_value))
+__CPROVER_assigns(__CPROVER_object_whole(c); maxSize != 0: __CPROVER_object_upto(buffer, maxSize); *size; g_recv_ret, g_recv_calls, GHOSTS)
 ;
 void w_client_suspend(void* c)
 __CPROVER_ensures(post_suspend_resume(1))
